@@ -268,7 +268,7 @@ func ruleR06_4(w *World, r *Report) {
 				continue
 			}
 			ev := errResult(call)
-			if ev == nil || ev.Referrers() == nil || len(*ev.Referrers()) == 0 {
+			if ev == nil || len(realRefs(ev)) == 0 {
 				r.Bad(cons, u.Pos(call.Pos()), "the error result is discarded")
 				continue
 			}
